@@ -137,6 +137,11 @@ def one_run(c, rnd, rid, spec):
         extra = []                         # new inputs for append / update
         if cmd in ("append", "update"):
             m = rnd.randint(1, 3)
+            if fkind == "bad" and rnd.random() < 0.3:
+                # many inputs, the failing one late: whatever is written before the failing item is reached (a batch,
+                # a buffer) must not have touched the archive
+                m = rnd.randint(34, 90)
+                k = rnd.randint(33, m)
             for i in range(m):
                 f = "t/n%d" % i
                 open(sb.path(f), "wb").write(bytes(rnd.getrandbits(8) for _ in range(rnd.choice([0, 7, 200]))))
